@@ -398,6 +398,27 @@ theorem deprecated_fromEncoding_alias (C : Codecs) (m : Markup) (e : Name) (excl
     constructorPrepare C m (some []) (some e) excl = constructorPrepare C m (some e) none excl := by
   cases he : e.isEmpty <;> simp [constructorPrepare, effectiveFromEncoding, he, prepareMarkup, prepareMarkupFull, knownOfFromEncoding]
 
+/-- FILE-LIKE INPUT. Handing the constructor a file-like object (binary or text file handle, BytesIO,
+    StringIO, anything with `read`) gives exactly what handing it the content gives: in particular
+    `from_encoding` / `fromEncoding` is honoured for bytes that arrive through a file handle (the
+    "Unicode markup" test looks at the argument before it is read, and a handle is not a str), and is
+    still ignored for text. -/
+theorem file_like_same_as_direct (C : Codecs) (m : Markup) (fe old : Option Name) (excl : List Name) :
+    constructorPrepareArg C (.fileLike m) fe old excl = constructorPrepareArg C (.direct m) fe old excl ∧
+    constructorPrepareArg C (.direct m) fe old excl = constructorPrepare C m fe old excl := by
+  cases m with
+  | str s => simp [constructorPrepareArg, constructorPrepare, MarkupArg.content, prepareMarkup, prepareMarkupFull]
+  | bytes b => simp [constructorPrepareArg, constructorPrepare, MarkupArg.content]
+
+/-- … so for bytes behind a file handle `from_encoding` is still the first candidate. -/
+theorem from_encoding_first_file_like (C : Codecs) (b : Bytes) (e r : Name) (u : PStr) (excl : List Name) (hb : b ≠ [])
+    (he : e ≠ []) (hx : (excl.map lower).contains (lower e) = false)
+    (hr : findCodec C e = some r) (hu : C.decodeStrict r (stripBom b).1 = some u) :
+    ∃ d, constructorPrepareArg C (.fileLike (.bytes b)) (some e) none excl = .ok u (some r) d false := by
+  have hne : e.isEmpty = false := by cases e <;> simp_all
+  obtain ⟨d, hd⟩ := from_encoding_first C b e r u excl hb he hx hr hu
+  exact ⟨d, by rw [(file_like_same_as_direct C _ _ _ _).1, (file_like_same_as_direct C _ _ _ _).2]; simpa [constructorPrepare, effectiveFromEncoding, hne] using hd⟩
+
 /-! ## the declared encoding -/
 
 /-- declared_html_encoding reports what the BOM-stripped document declares, independently of which
@@ -1026,5 +1047,9 @@ example : True := by
   trivial
 -- `candidates_complete` (second part) really needs "no earlier occurrence ignoring case": here `a` is represented by `A`
 example : ofS "a" ∉ encodingsImpl [ofS "A", ofS "b"] none [ofS "a"] none none [ofS "b"] := by decide
+
+example : True := by
+  have := from_encoding_first_file_like toy [65] (ofS "ASCII") ascii [65] [] (by decide) (by decide) (by decide) (by decide) (by decide)
+  trivial
 
 end BS.Props.C07
